@@ -154,7 +154,7 @@ func (m *Machine) visitInstr(fr *Frame, instr ssa.Instruction) continuation {
 		if addr == nil {
 			m.nilDeref()
 		}
-		*addr = copyVal(fr.get(instr.Val))
+		m.store(instr.Val.Type(), addr, fr.get(instr.Val))
 
 	case *ssa.If:
 		succ := 1
@@ -323,6 +323,32 @@ func (m *Machine) visitInstr(fr *Frame, instr ssa.Instruction) continuation {
 		panic(m.unsupported(fmt.Sprintf("instruction %T", instr)))
 	}
 	return kNext
+}
+
+// store assigns v to *addr. Aggregates are copied element-wise INTO the existing storage, so
+// that pointers to fields/elements of the variable (FieldAddr/IndexAddr) keep pointing at it.
+func (m *Machine) store(t types.Type, addr *Value, v Value) {
+	switch tt := t.Underlying().(type) {
+	case *types.Struct:
+		lhs, ok1 := (*addr).(Struct)
+		rhs, ok2 := v.(Struct)
+		if ok1 && ok2 && len(lhs) == len(rhs) && len(lhs) == tt.NumFields() {
+			for i := range lhs {
+				m.store(tt.Field(i).Type(), &lhs[i], rhs[i])
+			}
+			return
+		}
+	case *types.Array:
+		lhs, ok1 := (*addr).(Array)
+		rhs, ok2 := v.(Array)
+		if ok1 && ok2 && len(lhs) == len(rhs) {
+			for i := range lhs {
+				m.store(tt.Elem(), &lhs[i], rhs[i])
+			}
+			return
+		}
+	}
+	*addr = copyVal(v)
 }
 
 func (m *Machine) prepareCall(fr *Frame, call *ssa.CallCommon) (fn Value, args []Value) {
